@@ -166,7 +166,26 @@ type Dict struct {
 }
 
 // ExtractDict extracts an image dictionary from a PDF stream.
-func ExtractDict(c pdf.Cursor, obj pdf.Object, _ bool) (*Dict, error) {
+func ExtractDict(c pdf.Cursor, obj pdf.Object, isDirect bool) (*Dict, error) {
+	return extractDict(c, obj, isDirect, true)
+}
+
+// dictNoAlternates is the result type of an image read as an alternate
+// image: such an image has no alternates of its own, so its /Alternates
+// entry is not decoded at all.  (Decoding and discarding the nested lists
+// makes the work exponential in the nesting depth.)  The separate type keeps
+// these results apart from those of [ExtractDict] in the extractor cache.
+type dictNoAlternates struct{ *Dict }
+
+func extractDictNoAlternates(c pdf.Cursor, obj pdf.Object, isDirect bool) (*dictNoAlternates, error) {
+	d, err := extractDict(c, obj, isDirect, false)
+	if err != nil {
+		return nil, err
+	}
+	return &dictNoAlternates{d}, nil
+}
+
+func extractDict(c pdf.Cursor, obj pdf.Object, _ bool, withAlternates bool) (*Dict, error) {
 	stream, err := c.Stream(obj)
 	if err != nil {
 		return nil, err
@@ -399,7 +418,9 @@ func ExtractDict(c pdf.Cursor, obj pdf.Object, _ bool) (*Dict, error) {
 
 	// extract alternates (Table 89); drop the whole list if it exceeds
 	// MaxAlternates rather than silently truncate
-	if alts, err := pdf.Optional(c.Array(dict["Alternates"])); err != nil {
+	if !withAlternates {
+		// an alternate image: alternates of alternates are not allowed
+	} else if alts, err := pdf.Optional(c.Array(dict["Alternates"])); err != nil {
 		return nil, err
 	} else if len(alts) <= limits.MaxAlternates {
 		for i, altObj := range alts {
